@@ -36,10 +36,13 @@ PROPS_FILE = "Ipv8/C17/Props.lean"
 DRIVER = "drv_c17"
 RULE = ("worlds of 3 real IdentityCommunity nodes + 2 node-less third-party keys; each world = one scripted opener "
         "(cross-subject registration, expiry boundary, third-party attestation stored first, replay, long chain, "
-        "sha1, fixed-metadata, wrong-name, tainted disclosure, restart over the same database, stale-plus-fresh registration, none) followed by 25-45 seeded events drawn from: add_known_hash (any subject incl. "
+        "sha1, fixed-metadata, wrong-name, tainted disclosure, restart over the same database with a new or the old "
+        "IdentityManager (third party's row first / own row stored / own row plus a row of another subject for the same "
+        "metadata), stale-plus-fresh registration, orphan flood beyond the 100-token cap, none) followed by 25-45 seeded events drawn from: add_known_hash (any subject incl. "
         "third parties, 5 hashes + one 20-byte hash, 3 names, 5 metadata dicts), request_attestation_advertisement, "
-        "self_advertise (single / bulk), deliver / replay / drop of captured packets, clock steps incl. exactly +300 "
-        "and +301 s after a registration, crafted DisclosePayload (own tokens, shadow tokens with foreign hashes, "
+        "self_advertise (single / bulk), deliver / replay / drop of captured packets, restarts, clock steps in multiples of "
+        "1/8 s incl. exactly +299.875, +300, +300.125 and +301 s after a registration, registered and disclosed metadata "
+        "with str / int / bool / float values, crafted DisclosePayload (own tokens, shadow tokens with foreign hashes, "
         "orphans, foreign-signed and garbage tokens, metadata with other name / extra keys / missing fields / bad "
         "JSON / foreign signature, third-party attestations valid / invalid / wrong authority, truncations), crafted "
         "AttestPayload (own / third-party / garbage / truncated), RequestMissingPayload (any index), "
